@@ -19,6 +19,9 @@
 //!               put in front of this operation's own timestamp and payload
 //!   `G<k>`              HTTP GET /pkarr/<z32(k)>
 //!   `Q<name>/<type>`    DoH POST query
+//!   `R<k>:<name>/<type>` `ZoneStore::resolve(key k, name, type)` called directly on the application's store
+//!        (what `resolve_pkarr` calls; the DNS front end never asks it for SOA / NS, this does);
+//!        name = the labels below the zone label (`-` = the zone apex)
 use std::{net::SocketAddr, sync::OnceLock};
 
 use axum::{body::Body, extract::ConnectInfo};
@@ -199,6 +202,7 @@ enum Op {
     P { path: u64, signer: u64, ts: u64, recs: Vec<Rec>, flags: String },
     G(u64),
     Q { name: Labels, ty: u16 },
+    R { key: u64, name: Labels, ty: u16 },
 }
 
 fn parse(raw: &str) -> (u64, u64, Vec<String>, Vec<Op>) {
@@ -214,6 +218,11 @@ fn parse(raw: &str) -> (u64, u64, Vec<String>, Vec<Op>) {
                 "Q" => {
                     let (n, ty) = rest.rsplit_once('/').unwrap();
                     Op::Q { name: labels_of(n, &z), ty: ty.parse().unwrap() }
+                }
+                "R" => {
+                    let (k, q) = rest.split_once(':').unwrap();
+                    let (n, ty) = q.rsplit_once('/').unwrap();
+                    Op::R { key: k.parse().unwrap(), name: labels_of(n, &z), ty: ty.parse().unwrap() }
                 }
                 "P" => {
                     let f: Vec<&str> = rest.split(':').collect();
@@ -439,6 +448,24 @@ enum Ob {
     Get(Option<(u64, usize, usize)>),
     Code(u64),
     Ans(u8, Vec<Answer>),
+    Res(u64, Vec<Answer>),
+}
+
+/// canonical rdata of a record handed out by the store (same form as `read_response` produces)
+fn canon_rdata(ty: u16, rd: &[u8]) -> Vec<u8> {
+    match ty {
+        2 | 5 => read_name(rd, 0).map(|(n, _)| wire_of(&n)).unwrap_or_else(|| rd.to_vec()),
+        6 => (|| {
+            let (m, p1) = read_name(rd, 0)?;
+            let (r, p2) = read_name(rd, p1)?;
+            let mut c = wire_of(&m);
+            c.extend(wire_of(&r));
+            c.extend_from_slice(rd.get(p2..p2 + 20)?);
+            Some(c)
+        })()
+        .unwrap_or_else(|| rd.to_vec()),
+        _ => rd.to_vec(),
+    }
 }
 
 async fn call(router: &axum::Router, req: http::Request<Body>) -> (u16, Vec<u8>) {
@@ -562,6 +589,7 @@ fn run(raw: &str) -> (String, String) {
             }
             Op::G(k) => format!("C36.GetPk {k}"),
             Op::Q { name, ty } => format!("C36.Query {} {ty}", names.name(name)),
+            Op::R { key, name, ty } => format!("C36.Resolve {key} {} {ty}", names.name(name)),
         })
         .collect();
     let coq_in = names.close(format!(
@@ -641,6 +669,28 @@ fn run(raw: &str) -> (String, String) {
                             (s, _) => Ob::Code(1000 + s as u64),
                         });
                     }
+                    Op::R { key, name, ty } => {
+                        let kb = *secret(seed, *key).public().as_bytes();
+                        let labels: Vec<&[u8]> = name.iter().map(|l| l.as_slice()).collect();
+                        obs.push(match app.store.resolve(&kb, &labels, *ty).await {
+                            Ok(Some(recs)) => Ob::Res(
+                                0,
+                                recs.into_iter()
+                                    .map(|(n, t, ttl, rd)| {
+                                        let l: Labels = n
+                                            .trim_end_matches('.')
+                                            .split('.')
+                                            .filter(|x| !x.is_empty())
+                                            .map(|x| x.to_ascii_lowercase().into_bytes())
+                                            .collect();
+                                        (l, t, ttl, canon_rdata(t, &rd))
+                                    })
+                                    .collect(),
+                            ),
+                            Ok(None) => Ob::Res(1, vec![]),
+                            Err(_) => Ob::Res(2, vec![]),
+                        });
+                    }
                 }
             }
             drop(app);
@@ -660,6 +710,10 @@ fn run(raw: &str) -> (String, String) {
                     Ob::Code(c) => format!("C36.OCode {c}"),
                     Ob::Ans(rc, ans) => format!(
                         "C36.OAns {rc} [{}]",
+                        ans.iter().map(|(n, ty, ttl, rd)| names.rr(n, *ty, *ttl, rd)).collect::<Vec<_>>().join("; ")
+                    ),
+                    Ob::Res(c, ans) => format!(
+                        "C36.ORes {c} [{}]",
                         ans.iter().map(|(n, ty, ttl, rd)| names.rr(n, *ty, *ttl, rd)).collect::<Vec<_>>().join("; ")
                     ),
                 })
@@ -808,6 +862,156 @@ fn gen_query_for(rng: &mut Rng, cfg: u64, published: &[(String, u16, u64)]) -> S
     format!("Q{full}/{ty}")
 }
 
+/// every record type the harness can publish
+const ALL_TYPES: &[u16] = &[16, 1, 28, 5, 2, 6];
+
+/// The record list of one packet.  Length 0, 1 (1/3 of all packets: the common real-world shape), 2, 3, 4
+/// or many (5-7).  In 2/5 of the non-empty lists one position -- the only record, the first, the last or
+/// a random one -- is forced to a type drawn from ALL types the harness knows (SOA and NS twice as often)
+/// and (3/4) placed exactly under the signer's zone label, so that every per-record rule of the server
+/// (type filter, zone test, grouping) is met by a packet of every length with the interesting record at
+/// every position.
+fn gen_recs(rng: &mut Rng, signer: u64) -> Vec<String> {
+    let n = match rng.below(12) {
+        0 => 0,
+        1..=4 => 1,
+        5..=7 => 2,
+        8 => 3,
+        9 => 4,
+        _ => rng.range(5, 7),
+    };
+    let mut recs: Vec<String> = (0..n).map(|_| gen_rec(rng, signer)).collect();
+    if n > 0 && rng.chance(2, 5) {
+        let pos = match rng.below(3) {
+            0 => 0,
+            1 => n - 1,
+            _ => rng.below(n),
+        } as usize;
+        let ty = *rng.pick(&[16u16, 1, 28, 5, 2, 2, 6, 6]);
+        let name = if rng.chance(3, 4) {
+            if rng.chance(1, 5) { format!("@{signer}") } else { format!("{}.@{signer}", rng.pick(LABELS)) }
+        } else {
+            recs[pos].split('/').next().unwrap().to_string()
+        };
+        recs[pos] = format!("{name}/{ty}/{}/{}", rng.pick(&[30u32, 60, 0]), rng.pick(DATA));
+    }
+    recs
+}
+
+/// `<name>.<origin>` in raw-case syntax
+fn under_origin(name: &str, origin: &str) -> String {
+    match (name, origin) {
+        ("-", "") => "-".to_string(),
+        ("-", o) => o.to_string(),
+        (n, "") => n.to_string(),
+        (n, o) => format!("{n}.{o}"),
+    }
+}
+
+/// the labels of a published name below its last label (`-` when nothing is left)
+fn zone_rel(name: &str) -> String {
+    if name == "-" {
+        return "-".to_string();
+    }
+    let labels: Vec<&str> = name.split('.').collect();
+    let rel = labels[..labels.len() - 1].join(".");
+    if rel.is_empty() { "-".to_string() } else { rel }
+}
+
+/// A direct store resolve for a published record: key = its signer (5/6), name = the record's name below
+/// its last label (1/4: below its first key-like label, what a sloppier zone test would have stripped),
+/// 1/6 upper case, type = the record's own (4/5) or any other incl. SOA / NS / ANY.
+fn gen_resolve_for(rng: &mut Rng, published: &[(String, u16, u64)]) -> String {
+    let (name, ty, signer) = rng.pick(published).clone();
+    let key = if rng.chance(5, 6) { signer } else { rng.below(NKEYS) };
+    let rel = if rng.chance(1, 4) { zone_rel(&sloppy_name(&name, key)) } else { zone_rel(&name) };
+    let rel = if rng.chance(1, 6) { rel.to_uppercase() } else { rel };
+    let ty = if rng.chance(1, 5) { *rng.pick(&[16u16, 1, 28, 5, 2, 6, 255]) } else { ty };
+    format!("R{key}:{rel}/{ty}")
+}
+
+fn gen_resolve(rng: &mut Rng) -> String {
+    let rel = if rng.chance(1, 5) { "-" } else { *rng.pick(LABELS) };
+    format!("R{}:{rel}/{}", rng.below(NKEYS), rng.pick(&[16u16, 16, 1, 28, 5, 2, 6, 255]))
+}
+
+/// Number of systematic packet-shape scenarios (see `shape_scenario`).
+const N_SHAPE: u64 = 6 * 6;
+
+/// Every record type x every packet shape: the subject record (type T, under K's zone) is
+///   0 the ONLY record of the packet, 1 the first of two, 2 the last of two, 3 the first of many (5),
+///   4 the last of many, 5 present twice (same name, different data) between other records.
+/// Optionally an older multi-record packet of K is stored first and K's zone is in the cache when the packet
+/// arrives.  Then, for EVERY record of the packet, exactly its (name, type) is asked both from the store
+/// (`R`) and over DNS (`Q`), plus the neighbours of the subject: same name with SOA / NS / ANY / TXT, upper
+/// case, the same name under another key; finally a newer packet of the complementary shape (single
+/// record <-> several records) replaces it and the subject is asked again.
+fn shape_scenario(rng: &mut Rng, j: u64) -> String {
+    let ty = ALL_TYPES[(j % 6) as usize];
+    let shape = (j / 6) % 6;
+    let cfg = *rng.pick(&[0u64, 0, 1, 2, 3]);
+    let k = rng.below(NKEYS);
+    let k2 = (k + 1 + rng.below(NKEYS - 1)) % NKEYS;
+    let lab = if rng.chance(1, 6) { None } else { Some(*rng.pick(LABELS)) };
+    let subj_name = match lab {
+        Some(l) => format!("{l}.@{k}"),
+        None => format!("@{k}"),
+    };
+    let subj = |d: &str| format!("{subj_name}/{ty}/30/{d}");
+    let filler = |rng: &mut Rng, i: u64| {
+        let t = *rng.pick(&[16u16, 16, 1, 28, 2, 6]);
+        format!("f{i}.@{k}/{t}/{}/{}", rng.pick(&[30u32, 60]), rng.pick(DATA))
+    };
+    let recs: Vec<String> = match shape {
+        0 => vec![subj("a")],
+        1 => vec![subj("a"), filler(rng, 0)],
+        2 => vec![filler(rng, 0), subj("a")],
+        3 => {
+            let mut v = vec![subj("a")];
+            v.extend((0..4).map(|i| filler(rng, i)));
+            v
+        }
+        4 => {
+            let mut v: Vec<String> = (0..4).map(|i| filler(rng, i)).collect();
+            v.push(subj("a"));
+            v
+        }
+        _ => vec![filler(rng, 0), subj("a"), filler(rng, 1), subj("b")],
+    };
+    let o = origins(cfg);
+    let origin = rng.pick(&o).trim_end_matches('.').to_string();
+    let q = |n: &str, t: u16| format!("Q{}/{t}", under_origin(n, &origin));
+    let r = |key: u64, n: &str, t: u16| format!("R{key}:{}/{t}", zone_rel(n));
+    let mut out = vec![format!("o{cfg}"), format!("s{}", rng.below(1000))];
+    if rng.chance(1, 2) {
+        out.push(format!("P{k}:{k}:1:_iroh.@{k}/16/30/old,{subj_name}/16/30/old2"));
+        if rng.chance(1, 2) {
+            out.push(r(k, &format!("_iroh.@{k}"), 16)); // K's zone is in the cache
+        }
+    }
+    out.push(format!("P{k}:{k}:3:{}", recs.join(",")));
+    for rec in &recs {
+        let p: Vec<&str> = rec.split('/').collect();
+        let t: u16 = p[1].parse().unwrap();
+        out.push(r(k, p[0], t));
+        out.push(q(p[0], t));
+    }
+    for t in [6u16, 2, 255, 16] {
+        out.push(r(k, &subj_name, t));
+    }
+    out.push(r(k, &subj_name.to_uppercase(), ty));
+    out.push(r(k2, &subj_name, ty));
+    out.push(q(&subj_name, 255));
+    out.push(format!("G{k}"));
+    // replaced by a newer packet of the complementary shape
+    let newer = if shape == 0 { format!("{},{}", filler(rng, 7), subj("n")) } else { subj("n") };
+    out.push(format!("P{k}:{k}:5:{newer}"));
+    out.push(r(k, &subj_name, ty));
+    out.push(q(&subj_name, ty));
+    out.push(r(k, &format!("f0.@{k}"), 16));
+    out.join(" ")
+}
+
 /// Number of systematic forged-publish scenarios (see `forgery_scenario`).
 const N_FORGERY: u64 = 3 * 4 * 3;
 
@@ -894,9 +1098,16 @@ fn generate(rng: &mut Rng, i: u64, _n: u64) -> String {
     if i < N_FORGERY {
         return forgery_scenario(rng, i);
     }
+    if i < N_FORGERY + N_SHAPE {
+        return shape_scenario(rng, i - N_FORGERY);
+    }
     if rng.chance(1, 12) {
         let j = rng.below(N_FORGERY);
         return forgery_scenario(rng, j);
+    }
+    if rng.chance(1, 12) {
+        let j = rng.below(N_SHAPE);
+        return shape_scenario(rng, j);
     }
     let cfg = *rng.pick(&[0u64, 0, 0, 1, 2, 3]);
     let mut out = vec![format!("o{cfg}"), format!("s{}", rng.below(1000))];
@@ -922,8 +1133,7 @@ fn generate(rng: &mut Rng, i: u64, _n: u64) -> String {
                 let path = if rng.chance(1, 25) { 9 } else { rng.below(NKEYS) };
                 let signer = if rng.chance(1, 5) { rng.below(NKEYS) } else { path.min(NKEYS - 1) };
                 let ts = rng.range(1, 4);
-                let nrec = rng.range(0, 4);
-                let recs: Vec<String> = (0..nrec).map(|_| gen_rec(rng, signer)).collect();
+                let recs: Vec<String> = gen_recs(rng, signer);
                 for r in &recs {
                     let p: Vec<&str> = r.split('/').collect();
                     published.push((p[0].to_string(), norm_type(p[1].parse().unwrap()), signer));
@@ -949,14 +1159,42 @@ fn generate(rng: &mut Rng, i: u64, _n: u64) -> String {
                 out.push(t);
             }
             5 | 6 if !published.is_empty() => out.push(gen_query_for(rng, cfg, &published)),
+            7 if !published.is_empty() => out.push(gen_resolve_for(rng, &published)),
+            8 if rng.chance(1, 3) => out.push(gen_resolve(rng)),
             _ => out.push(gen_query(rng, cfg)),
+        }
+    }
+    // afterwards: exactly the (name, type) of every published record (of up to 6 of them when there are
+    // more), once over DNS under one of the origins and once directly from the store under its signer
+    {
+        let mut distinct: Vec<(String, u16, u64)> = Vec::new();
+        for p in &published {
+            if !distinct.contains(p) {
+                distinct.push(p.clone());
+            }
+        }
+        while distinct.len() > 6 {
+            let i = rng.below(distinct.len() as u64) as usize;
+            distinct.remove(i);
+        }
+        let o = origins(cfg);
+        for (name, ty, signer) in &distinct {
+            let origin = rng.pick(&o).trim_end_matches('.').to_string();
+            out.push(format!("R{signer}:{}/{ty}", zone_rel(name)));
+            if rng.chance(1, 2) {
+                out.push(format!("Q{}/{ty}", under_origin(name, &origin)));
+            }
         }
     }
     // afterwards: query the published names (every record when there are few) and some others
     let nq = rng.range(3, 6);
     for _ in 0..nq {
-        if !published.is_empty() && rng.chance(3, 4) {
+        if !published.is_empty() && rng.chance(1, 4) {
+            out.push(gen_resolve_for(rng, &published));
+        } else if !published.is_empty() && rng.chance(3, 4) {
             out.push(gen_query_for(rng, cfg, &published));
+        } else if rng.chance(1, 6) {
+            out.push(gen_resolve(rng));
         } else {
             out.push(gen_query(rng, cfg));
         }
